@@ -459,7 +459,10 @@ def outcomes(stmts, scope: Scope | None = None, env: dict | None = None, atom=No
         if isinstance(s, ast.AugAssign):
             env2 = dict(env)
             if isinstance(s.target, ast.Name):
-                env2.pop(s.target.id, None)
+                prev = env2.pop(s.target.id, None)
+                if prev is not None and isinstance(s.op, (ast.Add, ast.Sub)) and s.target.id not in opaque:
+                    # `x += e` denotes the value x + e (the statement stays among the events: in-place-ness is E4's business)
+                    env2[s.target.id] = ast.BinOp(left=prev, op=s.op, right=res(s.value, env, conds))
             return walk(rest, env2, conds, events + [s], cont, seq + (("stmt", s, res(s.value, env, conds)),))
         if isinstance(s, ast.For) and not s.orelse and isinstance(s.target, (ast.Name, ast.Tuple)):
             # a loop over a display of known length is its body once per element
